@@ -28,6 +28,7 @@ type DdnParams struct {
 	Reports  int    `json:"reports"`
 	DdnMs    int    `json:"ddnMs"`    // 0 = the real 20 s
 	Datapath string `json:"datapath"` // bess (default) | up4: reports are digests of the harness' P4Runtime switch
+	Flood    int    `json:"flood"`    // > 0: this many sessions are established and report for the first time all at once
 }
 
 func e2eDdnWorker(args []string) error {
@@ -77,6 +78,33 @@ func e2eDdnWorker(args []string) error {
 	cp := uint64(rng.Int63())
 	ue := uint32(0x0AD00000 + rng.Intn(1<<12)<<4)
 	n3 := w.AccessIP
+
+	if p.Flood > 0 {
+		// more sessions than the agent's report channel has places (1024) report for the first time in one burst: every one of
+		// them is due (the tables are not recorded in this history)
+		w.LightDp = true
+
+		var ups, cps []uint64
+
+		for i := 0; i < p.Flood && !w.Died; i++ {
+			cp++
+			ue++
+
+			r := simpleSession(cp, ue, 1)
+			r.CFAR[1].Action = 0x0c
+
+			if ds := w.Estab("p1", r); len(ds) >= 1 && ds[0].Cause == 1 && ds[0].HasFSEID {
+				ups, cps = append(ups, ds[0].UPSeid), append(cps, cp)
+			}
+		}
+
+		sum.Stats["flood_sessions"] = len(ups)
+		sum.Stats["flood_requests"] = w.ReportMany("p1", ups, cps, 8*time.Second)
+		sum.Scenarios = 1
+		sum.Lines, sum.Steps, sum.Accepted, sum.Died = w.Lines, w.Steps, w.Accepted, w.Died
+
+		return nil
+	}
 
 	type sess struct {
 		up     uint64
@@ -217,9 +245,19 @@ func C13(c *core.Ctx) {
 		nshards, reports = 12, 400
 	}
 
-	res := runE2EMixed(c, nshards, "TraceE2E_C13.cfg", func(i int) (string, interface{}) {
+	flood := 0
+	if c.Thorough() { // (validating a history with thousands of live sessions takes TLC minutes: thorough tier only)
+		flood = 1
+	}
+
+	res := runE2EMixed(c, nshards+flood, "TraceE2E_C13.cfg", func(i int) (string, interface{}) {
 		dir, trace := shardDir(c, i)
 		ddn := 200
+
+		if i == nshards { // the flood shard
+			return "e2e-ddn", DdnParams{Dir: dir, Trace: trace, AgentBin: filepath.Join(c.BinDir, "verif-agent"), N4Addr: n4For(i), Seed: c.Seed*1000 + 129, DdnMs: 2000, Datapath: "bess",
+				Flood: 2600 + int(c.Seed%7)*13}
+		}
 
 		if c.Thorough() && i == 0 {
 			ddn = 0 // the real 20 s interval: only "first report" and "inside" situations occur
